@@ -356,7 +356,12 @@ def run_shard(spec):
     known = ref.make_event(key, kind=1, created_at=gen.T0 - 5, content="known")
     tier = spec.get("tier", "quick")
     frames = hostile_frames(r, key, known["id"], tier, spec["count"])
-    viols, nontrivial, samples = R.run(run_case, spec["backend"], spec["cfg"], frames, counters, spec["case_seed"])
+    try:
+        viols, nontrivial, samples = R.run(run_case, spec["backend"], spec["cfg"], frames, counters, spec["case_seed"])
+    except R.Inconclusive as e:
+        # the harness' generous watchdog fired: the relay never became quiescent again
+        viols, nontrivial, samples = [{"key": "relay-wedged", "msg": "[%s/%s] the relay did not become quiescent again: %s" % (spec["backend"], spec["cfg"], e),
+                                       "replay": {"backend": spec["backend"], "cfg": spec["cfg"], "labels": [l for l, _ in frames][:80], "frames": []}}], [], []
     seen, out = {}, []
     for v in viols:
         seen[v["key"]] = seen.get(v["key"], 0) + 1
